@@ -95,10 +95,13 @@ PROPS["C13"] = dict(
 )
 
 PROPS["C14"] = dict(
-    modules=["Proofs.C14", "Proofs.C14Bits", "Proofs.C14BitsFull"],
+    modules=["Proofs.C14", "Proofs.C14Bits", "Proofs.C14BitsFull", "Proofs.C14Map"],
     theorems=["Goflow.C14.key_function", "Goflow.C14.no_key", "Goflow.C14.custom_varint_readback", "Goflow.C14.custom_bytes_readback",
               "Goflow.C14.mapCustom_varint", "Goflow.C14.getBytes_total", "Goflow.C14.extract_aligned", "Goflow.C14.getBytes_aligned",
-              "Goflow.C14.getBytes_eq_extract_aligned", "Goflow.C14.getBytes_eq_extract", "Goflow.C14.toBits_shiftPass"],
+              "Goflow.C14.getBytes_eq_extract_aligned", "Goflow.C14.getBytes_eq_extract", "Goflow.C14.toBits_shiftPass",
+              "Goflow.C14Map.mapCustom_spec", "Goflow.C14Map.mapLayerEntries_spec", "Goflow.C14Map.mapLayerKeys_spec", "Goflow.C14Map.parseLoop_step",
+              "Goflow.C14Map.element_mapping_spec", "Goflow.C14Map.convertFields_custom", "Goflow.C14Map.custom_record_spec",
+              "Goflow.C14Map.lookupNetflow_last", "Goflow.C14Map.effectOf_custom", "Goflow.C14Map.effectOf_numeric"],
     generators=[dict(name="C14", quick=42, thorough=1260)],
     harness=["impl"],
 )
